@@ -24,6 +24,8 @@ class Summarizer(Monitor):
         self.ops = {}
 
     def on_op_end(self, w, a, op, outcome):
+        if outcome.get("self_read"):
+            return          # reads from inside the host's own call-outs are not replayed by the solo reference
         lst = self.ops.setdefault(a.aid, [])
         if op["op"] == "create":
             lst.append({"op": "create", "raised": a.construct_error})
@@ -164,7 +166,8 @@ class C11(SolverSuite):
             pos = sorted(rng.randint(0, len(ops)) for _ in dops)
             for off, (i, o) in enumerate(zip(pos, dops)):
                 ops.insert(i + off, o)
-        return G.base_plan(self.prop, run_seed, actors, ops, clock=G.gen_clock(rng))
+        from .suites import gen_self_reads
+        return gen_self_reads(rng, G.base_plan(self.prop, run_seed, actors, ops, clock=G.gen_clock(rng)))
 
     def check_xproc(self, plan):
         import subprocess
@@ -434,6 +437,9 @@ class C12(SolverSuite):
             slow = {aid for aid, a in actors.items() if a.get("params_obj") == "default" and a["objective"]["N"] > 1}
             for n in plan["nested"]:
                 n["ops"] = [o for o in n["ops"] if not (o["op"] == "solve" and o["a"] in slow)]
+        from .suites import gen_self_reads
+        for aid in sorted(actors):
+            gen_self_reads(rng, plan, aid=aid, prob=0.06, max_entries=2)
         return plan
 
     def check(self, plan):
@@ -592,7 +598,7 @@ class C13Monitor(Monitor):
         self.op_marks = {}    # aid -> list of (op dict, n_calls_before, n_calls_after, cb_events index range, raised, exc, result reading, op_no)
 
     def on_op_end(self, w, a, op, outcome):
-        if op["op"] == "create":
+        if op["op"] == "create" or outcome.get("self_read"):
             return
         lst = self.op_marks.setdefault(a.aid, [])
         prev_calls = lst[-1]["calls_after"] if lst else 0
